@@ -165,6 +165,8 @@ func KindOf(e *E) string {
 		return e.Name
 	case KNil:
 		return "nil"
+	case KLocal:
+		return "local:" + e.Name
 	}
 	return e.K
 }
